@@ -170,14 +170,17 @@ package foreach
 //@       typeis(*callarg(OnStepComplete, 1, 3), map[string]any) && \
 //@       (*callarg(OnStepComplete, 1, 3)).(map[string]any)["errors"] == any(callres(executeSubWorkflows, 1, 1)) && \
 //@       reported(step.RunningStep(r), "outputs") == 2 && reported(step.RunningStep(r), "failed") == 1
-//@   ensures [failure-data-is-an-index-map] len(callres(executeSubWorkflows, 1, 1)) > 0 ==> \
-//@       typeis((*callarg(OnStepComplete, 1, 3)).(map[string]any)["data"], map[int]any)
+// Integers are int64 in serialised data and in expressions: $.steps.loop.failed.error.errors[0] indexes
+// with an int64, which a map keyed by int cannot be indexed with.
+//@   ensures [failure-maps-are-keyed-by-int64-as-serialised-data-is] len(callres(executeSubWorkflows, 1, 1)) > 0 ==> \
+//@       typeis((*callarg(OnStepComplete, 1, 3)).(map[string]any)["data"], map[int64]any) && \
+//@       typeis((*callarg(OnStepComplete, 1, 3)).(map[string]any)["errors"], map[int64]string)
 //@   ensures [failure-keeps-exactly-the-other-results] len(callres(executeSubWorkflows, 1, 1)) > 0 ==> \
-//@       (forall k int :: indom((*callarg(OnStepComplete, 1, 3)).(map[string]any)["data"].(map[int]any), k) <==> \
+//@       (forall k int :: indom((*callarg(OnStepComplete, 1, 3)).(map[string]any)["data"].(map[int64]any), k) <==> \
 //@            (0 <= k && k < len(callres(executeSubWorkflows, 1, 0)) && callres(executeSubWorkflows, 1, 0)[k] != nil))
 //@   ensures [failure-keeps-results-at-their-index] len(callres(executeSubWorkflows, 1, 1)) > 0 ==> \
 //@       (forall k int :: 0 <= k && k < len(callres(executeSubWorkflows, 1, 0)) && callres(executeSubWorkflows, 1, 0)[k] != nil ==> \
-//@            (*callarg(OnStepComplete, 1, 3)).(map[string]any)["data"].(map[int]any)[k] == callres(executeSubWorkflows, 1, 0)[k])
+//@            (*callarg(OnStepComplete, 1, 3)).(map[string]any)["data"].(map[int64]any)[k] == callres(executeSubWorkflows, 1, 0)[k])
 //@   loop 1 invariant forall k int :: indom(dataMap, k) <==> (0 <= k && k <= rangeidx && outputs[k] != nil)
 //@   loop 1 invariant forall k int :: 0 <= k && k <= rangeidx && outputs[k] != nil ==> dataMap[k] == outputs[k]
 //@   loop 1 invariant -1 <= rangeidx && rangeidx < len(outputs) && dataMap != nil && allocated(dataMap)
